@@ -1252,6 +1252,7 @@ def run_execute(cfgd, evs, plan, crash, tmp, via_click=False, join_timeout=None,
         for wi, h in enumerate(writers):               # the moment the command has been left
             t, f = getattr(h, "worker", None), getattr(getattr(h, "path", None), "_f", None)
             at_exit.append({"alive": isinstance(t, threading.Thread) and t.is_alive(), "held": stalls.waiting(wi),
+                            "daemon": bool(getattr(t, "daemon", False)),
                             "file_closed": f is not None and bool(getattr(f, "closed", False))})
         stalls.release_all()
         alive = []
@@ -1698,6 +1699,15 @@ def exit_judge(chk, mechanism, cases, join_variant, click_owns):
         exc = res["exc"]
         if exc is not None and not (crash is not None and isinstance(exc, RuntimeError) and str(exc) == "boom"):
             chk.violation(f"C16:_execute:exit:raises-{type(exc).__name__}", f"_execute raised {exc!r}", {**replay, "error": repr(exc)})
+            continue
+        # the model's process end ("the interpreter waits for the writer threads") holds for non-daemon threads only: a daemon
+        # writer that is still busy when the command has been left is killed with its backlog unwritten
+        killed = [fmts[wi] for wi, a in enumerate(res["at_exit"]) if a["alive"] and a.get("daemon") and wi < len(fmts)]
+        if killed:
+            chk.violation("C16:CassetteWriter:daemon-writer-thread-still-busy-when-the-command-is-left",
+                          f"the {killed} writer thread is a daemon and still has a backlog when `_execute` has been left (shutdown's "
+                          f"join returned by time-out): the interpreter does not wait for daemon threads, so the report loses every "
+                          f"exchange not yet written", replay)
             continue
         if any(res["alive"]):
             chk.violation("C16:_execute:exit:writer-thread-never-returns", f"a writer thread is still alive long after the "
